@@ -24,6 +24,9 @@ inductive Stmt where
   | scNeg (d a : String)
   | scInv (d a : String)                          -- secp256k1_scalar_inverse / _inverse_var
   | scClear (d : String)
+  | scConst (d : String) (n : Nat)                -- a file-scope scalar constant (secp256k1_scalar_one, …)
+  | scOfBytesSeckey (x d b : String)              -- x := secp256k1_scalar_set_b32_seckey(d, b)
+  | scCmov (d s : String) (flag : Expr)           -- secp256k1_scalar_cmov
   | scIsZero (x s : String)
   | scIsHigh (x s : String)
   | scCondNeg (d : String) (flag : Expr)          -- secp256k1_scalar_cond_negate(d, flag)
@@ -41,6 +44,8 @@ inductive Stmt where
   -- points
   | ptSet (d s : String)                          -- gej_set_ge / ge_set_gej(_var) / struct copy: the same point
   | ptClear (d : String)
+  | ptAdd (d a b : String)                        -- gej_add_var / gej_add_ge_var / gej_add_ge: d := a + b
+  | ptNeg (d a : String)                          -- gej_neg / ge_neg
   | ecmult (d a na ng : String)                   -- secp256k1_ecmult: d := na·a + ng·G
   | ecmultGen (d n : String)                      -- secp256k1_ecmult_gen: d := n·G
   | ptIsInf (x p : String)
@@ -52,6 +57,7 @@ inductive Stmt where
   -- control
   | int (x : String) (e : Expr)
   | ite (c : Expr) (t e : List Stmt)
+  | scope (body : List Stmt)                      -- an inlined callee: a `ret` inside ends the callee only
   | ret
 deriving Repr
 
@@ -95,6 +101,12 @@ def execS (st : State) : Stmt → State
   | .scNeg d a => { st with sc := update st.sc d (Sc.neg (st.scGet a)) }
   | .scInv d a => { st with sc := update st.sc d (Sc.inv (st.scGet a)) }
   | .scClear d => { st with sc := update st.sc d 0 }
+  | .scConst d n => { st with sc := update st.sc d (n % N) }
+  | .scOfBytesSeckey x d b =>
+    let v := Bytes.toNat (st.byGet b)
+    { st with sc := update st.sc d (v % N), ints := st.ints.set x 0 (i32 (v < N ∧ v ≠ 0)) }
+  | .scCmov d s flag =>
+    if evalEI st.ints flag ≠ 0 then { st with sc := update st.sc d (st.scGet s) } else st
   | .scIsZero x s => { st with ints := st.ints.set x 0 (i32 (st.scGet s % N = 0)) }
   | .scIsHigh x s => { st with ints := st.ints.set x 0 (i32 (Sc.isHigh (st.scGet s))) }
   | .scCondNeg d flag =>
@@ -120,6 +132,8 @@ def execS (st : State) : Stmt → State
   | .feIsOdd x f => { st with ints := st.ints.set x 0 (st.feGet f % P % 2) }
   | .ptSet d s => { st with pt := update st.pt d (st.ptGet s) }
   | .ptClear d => { st with pt := update st.pt d Pt.inf }
+  | .ptAdd d a b => { st with pt := update st.pt d (Pt.add (st.ptGet a) (st.ptGet b)) }
+  | .ptNeg d a => { st with pt := update st.pt d (Pt.neg (st.ptGet a)) }
   | .ecmult d a na ng =>
     { st with pt := update st.pt d (Pt.add (Pt.mul (st.scGet na % N) (st.ptGet a)) (Pt.mulG (st.scGet ng % N))) }
   | .ecmultGen d n => { st with pt := update st.pt d (Pt.mulG (st.scGet n % N)) }
@@ -138,6 +152,7 @@ def execS (st : State) : Stmt → State
     { st with sc := update st.sc e (Schnorr.challenge (st.byGet r32) (lookup [] st.bs msg) (st.byGet pk32)) }
   | .int x e => { st with ints := st.ints.set x 0 (evalEI st.ints e) }
   | .ite c t e => if evalEI st.ints c ≠ 0 then execL st t else execL st e
+  | .scope body => { execL st body with returned := st.returned }
   | .ret => { st with returned := true }
 
 def execL (st : State) : List Stmt → State
